@@ -97,3 +97,22 @@ def validate_store_traces(scenarios: list[dict[str, Any]], require_complete: boo
     """scenarios: [{'sqlite': bool, 'runs': [trace, ...], 'killed': [bool, ...]}]"""
     flat = [flatten(s["runs"], s["sqlite"], s.get("mods", ["a", "b", "c"]), s.get("killed")) for s in scenarios]
     return validate_flat(flat)
+
+
+def validate_parallel_traces(runs: list[dict[str, Any]]) -> dict[str, Any]:
+    """runs: [{'n': workers, 'shape': name, 'events': [...coordinator events of harness/par.py...], 'status': int}]"""
+    from harness.par import SHAPES
+    flat = []
+    for r in runs:
+        deps = SHAPES[r["shape"]]
+        ev = []
+        for e in r["events"]:
+            if e["ev"] in ("stale", "fresh"):
+                ev.append({"ev": e["ev"], "w": 0, "ph": 0, "sccs": e["sccs"], "status": 0})
+            elif e["ev"] == "submit":
+                ev.append({"ev": "submit", "w": e["w"], "ph": 0, "sccs": e["sccs"], "status": 0})
+            elif e["ev"] == "recv":
+                ev.append({"ev": "recv", "w": e["w"], "ph": e["ph"], "sccs": e["sccs"], "status": 0})
+        ev.append({"ev": "end", "w": 0, "ph": 0, "sccs": [], "status": r["status"]})
+        flat.append({"n": r["n"], "deps": [deps[k] for k in sorted(deps)], "ev": ev})
+    return validate_flat(flat, spec="Trace_Parallel", cfg="Trace_Parallel.cfg")
